@@ -449,3 +449,39 @@ def make_long_rank_spec(rng):
         lec.append([[x] for x in studs])
     return {'na': na, 'ns': ns, 'np': np_, 'nl': nl, 'st': st, 'plq': plq, 'puq': puq, 'plec': plec,
             'llq': llq, 'lt': lt, 'luq': luq, 'lec': lec, 'shape': 'long_ranks'}
+
+
+def make_size_cost_cross_spec(rng):
+    """3-agent instances in which valid matchings of different SIZES exist and the larger
+    ones tend to be cheaper per rank: 'pair' projects with lower quota 2 ranked high,
+    single-seat projects ranked low, and a lecturer lower quota that forbids the empty
+    matching (meant to be run with -pc)."""
+    ns = rng.randint(2, 4)
+    n_pair = rng.randint(1, 2)
+    n_single = rng.randint(1, 3)
+    np_ = n_pair + n_single
+    nl = rng.randint(1, 2)
+    plq = [2] * n_pair + [rng.choice([0, 0, 1]) for _ in range(n_single)]
+    puq = [rng.choice([2, 3]) for _ in range(n_pair)] + [1] * n_single
+    plec = [rng.randint(1, nl) for _ in range(np_)]
+    st = []
+    for _ in range(ns):
+        pairs = rng.sample(range(1, n_pair + 1), rng.randint(0, n_pair))
+        singles = rng.sample(range(n_pair + 1, np_ + 1), rng.randint(1, n_single))
+        order = pairs + singles if rng.random() < 0.75 else singles + pairs
+        st.append(random_groups(rng, order, rng.choice(['none', 'none', 'low'])))
+    luq, llq, lt = [], [], []
+    for k in range(nl):
+        tot = sum(puq[j] for j in range(np_) if plec[j] == k + 1)
+        u = max(1, tot)
+        lo = rng.choice([0, 1, 1]) if tot else 0
+        luq.append(u)
+        llq.append(lo)
+        lt.append(rng.randint(lo, u))
+    lec = []
+    for k in range(nl):
+        studs = [x + 1 for x in range(ns) if any(plec[p - 1] == k + 1 for g in st[x] for p in g)]
+        rng.shuffle(studs)
+        lec.append(random_groups(rng, studs, 'low'))
+    return {'na': 3, 'ns': ns, 'np': np_, 'nl': nl, 'st': st, 'plq': plq, 'puq': puq, 'plec': plec,
+            'llq': llq, 'lt': lt, 'luq': luq, 'lec': lec, 'shape': 'size_cost_cross'}
